@@ -65,6 +65,9 @@ structure MState where
   parked : List ((Nat × Nat) × Nat) := []                 -- (connection, origin timestamp) of an update waiting for its frame ↦ join requests the connection had sent before it
   joinsSent : List (Nat × Nat) := []                      -- connection ↦ join requests received from it
   joinsDone : List (Nat × Nat) := []                      -- connection ↦ join requests of it handled
+  seq : Nat := 0                                          -- updates received so far by the schedulers
+  held : List ((Nat × Nat × Nat) × Nat × Nat) := []       -- (connection, kind (0 pose, type id + 1 component), entity) waiting for its frame ↦ (first, last) arrival
+  overtaken : List ((Nat × Nat × Nat) × List Nat) := []   -- a waiting update ↦ the connections already relayed a later update of the same entity
 deriving Inhabited
 
 def flat (s : String) : String := s.replace "\n" " "
@@ -554,6 +557,41 @@ def MState.step (m : MState) (st : IStep) : MState :=
       | none => m
     | .connect c | .disconnect c =>
       { m with joinsSent := m.joinsSent.filter (·.1 != c), joinsDone := m.joinsDone.filter (·.1 != c), parked := m.parked.filter (·.1.1 != c) }
+    | _ => m
+  -- C02, last clause: the updates of one entity that wait for the same frame are relayed in the order in which their
+  -- connection received them.  Updates of one kind coalesce (the latest value is relayed); an inversion is unambiguous
+  -- when every arrival of the update relayed later precedes every arrival of the one relayed first.
+  let m := match st.ev with
+    | .recv c (.updatePose _ eid (some _)) | .recv c (.compUpdate _ _ eid _) =>
+      let kind := match st.ev with | .recv _ (.compUpdate _ tid ..) => tid + 1 | _ => 0
+      let key := (c, kind, eid)
+      let first := ((m.held.find? fun q => q.1 == key).map fun q => q.2.1).getD m.seq
+      { m with seq := m.seq + 1, held := (m.held.filter fun q => q.1 != key) ++ [(key, first, m.seq)] }
+    | .handle c (some (.updatePose _ eid _)) _ | .handle c (some (.compUpdate _ _ eid _)) _ =>
+      let kind := match st.ev with | .handle _ (some (.compUpdate _ tid ..)) _ => tid + 1 | _ => 0
+      let key := (c, kind, eid)
+      let relayedTo := ((st.ds.filter fun (d : Delivery) => d.1 != c && (match d.2 with | .poseBcast .. | .compUpdateBcast .. => true | _ => false)).map Prod.fst).eraseDups
+      match m.held.find? fun q => q.1 == key with
+      | some (_, first, _) =>
+        let m := { m with held := m.held.filter fun q => q.1 != key }
+        -- was this one overtaken by a later update of the same entity that reached the same connection?
+        let m := match m.overtaken.find? fun q => q.1 == key with
+          | some (_, who) =>
+            let both := relayedTo.filter who.contains
+            let m := { m with overtaken := m.overtaken.filter fun q => q.1 != key }
+            if both.isEmpty then m else
+              m.bad "C02" "deferred-updates-of-an-entity-reordered"
+                s!"connection {c} sent this update of entity {eid} (kind {kind}: 0 pose, n+1 component type n) before another update of the same entity, both waited for the same frame, and connections {both} were relayed the other one first"
+          | none => m
+        -- the ones still waiting whose every arrival precedes this one's first are overtaken
+        let waiting := m.held.filter fun q => q.1.1 == c && q.1.2.2 == eid && q.2.2 < first
+        if relayedTo.isEmpty then m else
+        { m with overtaken := waiting.foldl (fun (o : List ((Nat × Nat × Nat) × List Nat)) q =>
+            let old := ((o.find? fun x => x.1 == q.1).map Prod.snd).getD []
+            (o.filter fun x => x.1 != q.1) ++ [(q.1, (old ++ relayedTo).eraseDups)]) m.overtaken }
+      | none => m
+    | .connect c | .disconnect c =>
+      { m with held := m.held.filter (·.1.1 != c), overtaken := m.overtaken.filter (·.1.1 != c) }
     | _ => m
   -- C04: every message the server sends carries its time (the receive function the clients are built on refuses one
   -- that does not): an answer without it never reaches the requester
